@@ -72,7 +72,7 @@ func decoderFuncs(rr *RuleRun) []declRef {
 
 func init() {
 	register(&Rule{
-		ID: "C17.error-checked", Prop: "C17", Floor: 25, Controls: 1,
+		ID: "C17.error-checked", Prop: "C17", Floor: 18, Controls: 1,
 		Doc: "in every function reachable from a decoder entry point, an error stored in a variable is read (tested, returned, wrapped) on every path before the variable is assigned again or the function returns: no decoding error is dropped by being overwritten",
 		Run: runErrorChecked,
 	})
@@ -82,12 +82,12 @@ func init() {
 		Run: runResultDependsOnType,
 	})
 	register(&Rule{
-		ID: "C17.length-taint", Prop: "C17", Floor: 6, Controls: 1,
+		ID: "C17.length-taint", Prop: "C17", Floor: 3, Controls: 1,
 		Doc: "a length read from the input (DecodeArrayLen / DecodeMapLen / DecodeBytesLen / DecodeExtHeader) reaches the size of a make only after a dominating comparison with a constant bound or with the length of a type-derived container that exits (memory must stay within a fixed multiple of the input)",
 		Run: runLengthTaint,
 	})
 	register(&Rule{
-		ID: "C17.partial-constructors", Prop: "C17", Also: []string{"C15", "C16"}, Floor: 8, Controls: 0,
+		ID: "C17.partial-constructors", Prop: "C17", Also: []string{"C15", "C16"}, Floor: 5, Controls: 0,
 		Doc: "decoder-reachable calls of constructors that panic on data-dependent conditions are guarded: ListVal/SetVal/MapVal by a dominating CanListVal/CanSetVal/CanMapVal exit, ObjectWithOptionalAttrs by a dominating check that every optional name is declared, refinement-builder mutators by a deferred recover that turns the panic into an error",
 		Run: runDecoderPartialCtors,
 	})
